@@ -291,7 +291,30 @@ def element_measures_stream(ctx, n):
             ctx.disagree("C17:element-measures", desc, "the measures of the Polygon with the same vertices", r[1:3], replay=[desc])
 
 
+def repeated_vertex_eq_stream(ctx, n):
+    """== for vertex cycles that visit a point twice (two triangles touching in a vertex written as one hexagon): equal to every
+    rotation / reversal of itself, in both orders"""
+    import geometer as g
+    rng = ctx.rng
+    for k in range(n):
+        o = (rng.randint(-2, 2), rng.randint(-2, 2))
+        cyc = [o, (o[0] + 2, o[1]), (o[0] + 2, o[1] + 2), o, (o[0] - 2, o[1]), (o[0] - 2, o[1] - 2)]
+        r0 = rng.randrange(6)
+        other = cyc[r0:] + cyc[:r0]
+        if rng.random() < 0.5:
+            other = other[::-1]
+        P = g.Polygon(*[g.Point(float(x), float(y)) for x, y in cyc])
+        Q = g.Polygon(*[g.Point(float(x), float(y)) for x, y in other])
+        desc = f"cycle with a repeated vertex {cyc} against {other}"
+        ctx.case(desc)
+        ctx.count("eq:repeated-vertex")
+        r = call_impl(lambda: (P == Q, Q == P))
+        if r[0] != "ok" or r[1] != (True, True):
+            ctx.disagree("C17:eq:repeated-vertex", desc, (True, True), r[1:3], replay=[desc])
+
+
 def correspondence(ctx):
+    repeated_vertex_eq_stream(ctx, ctx.budget(30, 300))
     from props import c03
     c03.polyhedron_eq_stream(ctx, ctx.budget(15, 150), prefix="C17")
     element_measures_stream(ctx, ctx.budget(45, 450))
